@@ -3,6 +3,7 @@
 package proj
 
 import (
+	"strconv"
 	"fmt"
 	"os"
 	"path/filepath"
@@ -106,6 +107,8 @@ type Project struct {
 	CropCols     string `json:"-"`                 // yaml text of cropout_conf.yml ("" = minimal)
 	Files        map[string]string `json:"-"`      // extra/override files relative to the project dir
 	SoilCSVOrder int               `json:"soil_csv_order,omitempty"` // column order of the CSV soil file (see SoilCSV)
+	FCode        string            `json:"fcode,omitempty"`          // weather station code = file name stem ("" = W)
+	NoRadColumn  bool              `json:"no_rad_column,omitempty"`  // the weather input carries no global radiation (no column; missing-value code in the one-file-per-year layout)
 }
 
 type GWPoint struct {
@@ -321,17 +324,25 @@ func (p *Project) SoilCSV() string {
 // WeatherCSV renders the multi-year CSV layout.
 func (p *Project) WeatherCSV() string {
 	var b strings.Builder
-	b.WriteString("iso-date,tmin,tavg,tmax,precip,globrad,wind,relhumid")
+	hdr, units := "iso-date,tmin,tavg,tmax,precip,globrad,wind,relhumid", "-,C,C,C,mm,MJ,m/s,%"
+	if p.NoRadColumn {
+		hdr, units = "iso-date,tmin,tavg,tmax,precip,wind,relhumid", "-,C,C,C,mm,m/s,%"
+	}
+	b.WriteString(hdr)
 	if p.SunColumn {
 		b.WriteString(",sunhours")
 	}
 	if p.VerdColumn {
 		b.WriteString(",verd")
 	}
-	b.WriteString("\n-,C,C,C,mm,MJ,m/s,%\n")
+	b.WriteString("\n" + units + "\n")
 	t := D(p.WeatherStart)
 	for _, d := range p.Weather {
-		fmt.Fprintf(&b, "%s,%g,%g,%g,%g,%g,%g,%g", t.Format("2006-01-02"), d.Tmin, d.Tavg, d.Tmax, d.Precip, d.Rad, d.Wind, d.RH)
+		if p.NoRadColumn {
+			fmt.Fprintf(&b, "%s,%g,%g,%g,%g,%g,%g", t.Format("2006-01-02"), d.Tmin, d.Tavg, d.Tmax, d.Precip, d.Wind, d.RH)
+		} else {
+			fmt.Fprintf(&b, "%s,%g,%g,%g,%g,%g,%g,%g", t.Format("2006-01-02"), d.Tmin, d.Tavg, d.Tmax, d.Precip, d.Rad, d.Wind, d.RH)
+		}
 		if p.SunColumn {
 			fmt.Fprintf(&b, ",%g", d.Sun)
 		}
@@ -492,16 +503,24 @@ func (p *Project) WriteWeather(root string) {
 		return
 	}
 	dir := filepath.Join(root, "weather", "w")
+	code := p.fcode()
 	switch p.Layout {
 	case 1:
 		for name, txt := range p.WeatherYearFiles() {
-			must(os.WriteFile(filepath.Join(dir, name), []byte(txt), 0o644))
+			must(os.WriteFile(filepath.Join(dir, code+strings.TrimPrefix(name, "W")), []byte(txt), 0o644))
 		}
 	case 2:
-		must(os.WriteFile(filepath.Join(dir, "W.csv"), []byte(p.WeatherCZ()), 0o644))
+		must(os.WriteFile(filepath.Join(dir, code+".csv"), []byte(p.WeatherCZ()), 0o644))
 	default:
-		must(os.WriteFile(filepath.Join(dir, "W.csv"), []byte(p.WeatherCSV()), 0o644))
+		must(os.WriteFile(filepath.Join(dir, code+".csv"), []byte(p.WeatherCSV()), 0o644))
 	}
+}
+
+func (p *Project) fcode() string {
+	if p.FCode != "" {
+		return p.FCode
+	}
+	return "W"
 }
 
 // YearExt is the file extension of a one-file-per-year weather file.
@@ -525,7 +544,14 @@ func (p *Project) WeatherYearFiles() map[string]string {
 			b.WriteString("tavg;tmin;tmax;ET0;relhumid;vapp14;wind;sundu;globrad;precip;jday\nC;C;C;mm;%;mmHg;m/s;h;MJ;mm;\n")
 			bufs[y] = b
 		}
-		sun, verd, et0 := -99.9, -99.9, -99.9
+		none := -99.9
+		if v, err := strconv.ParseFloat(p.Cfg("WeatherNoneValue"), 64); err == nil {
+			none = v
+		}
+		sun, verd, et0 := none, none, none
+		if p.NoRadColumn {
+			d.Rad = none
+		}
 		if p.SunColumn {
 			sun = d.Sun
 		}
@@ -559,7 +585,11 @@ func (p *Project) WeatherYearFiles() map[string]string {
 // WeatherCZ renders layout 2 (multi-year, yyyyddd dates, tavg derived).
 func (p *Project) WeatherCZ() string {
 	var b strings.Builder
-	b.WriteString("@YYYYJJJ TMIN TMAX RAD PREC WIND RH")
+	if p.NoRadColumn {
+		b.WriteString("@YYYYJJJ TMIN TMAX PREC WIND RH")
+	} else {
+		b.WriteString("@YYYYJJJ TMIN TMAX RAD PREC WIND RH")
+	}
 	if p.SunColumn {
 		b.WriteString(" SUNH")
 	}
@@ -569,7 +599,11 @@ func (p *Project) WeatherCZ() string {
 	b.WriteString("\n")
 	t := D(p.WeatherStart)
 	for _, d := range p.Weather {
-		fmt.Fprintf(&b, "%04d%03d %g %g %g %g %g %g", t.Year(), t.YearDay(), d.Tmin, d.Tmax, d.Rad, d.Precip, d.Wind, d.RH)
+		if p.NoRadColumn {
+			fmt.Fprintf(&b, "%04d%03d %g %g %g %g %g", t.Year(), t.YearDay(), d.Tmin, d.Tmax, d.Precip, d.Wind, d.RH)
+		} else {
+			fmt.Fprintf(&b, "%04d%03d %g %g %g %g %g %g", t.Year(), t.YearDay(), d.Tmin, d.Tmax, d.Rad, d.Precip, d.Wind, d.RH)
+		}
 		if p.SunColumn {
 			fmt.Fprintf(&b, " %g", d.Sun)
 		}
@@ -584,6 +618,6 @@ func (p *Project) WeatherCZ() string {
 
 // Args returns the batch-line arguments of the project.
 func (p *Project) Args(root string, extra ...string) []string {
-	a := []string{"project=" + p.ID, "plotNr=" + p.Plot, "fcode=W", "resultfolder=" + filepath.Join(root, "out", p.ID+"_"+p.Plot)}
+	a := []string{"project=" + p.ID, "plotNr=" + p.Plot, "fcode=" + p.fcode(), "resultfolder=" + filepath.Join(root, "out", p.ID+"_"+p.Plot)}
 	return append(a, extra...)
 }
